@@ -258,13 +258,13 @@ func runC19a(e *env, tier string) {
 			cnt = left
 		}
 		left -= cnt
-		pw := int64(1 + c.Intn(50))
+		pw := int64(2 + c.Intn(50))
 		opts = append(opts, sim.AddHonestParticipants(cnt, sim.NewUniformECChainGenerator(uint64(c.Intn(1000)), 1, 4), sim.UniformStoragePower(gpbft.NewStoragePower(pw))))
 	}
 	inj := &injector{e: e, variant: c.Intn(11)}
 	var s *sim.Simulation
 	inj.simRef = &s
-	advPower := int64(1 + c.Intn(10))
+	advPower := int64(1) // the silent adversary must stay below one third so that the honest run terminates quickly
 	opts = append(opts, sim.WithAdversary(func(id gpbft.ActorID, h adversary.Host) *adversary.Adversary {
 		inj.host, inj.id = h, id
 		return &adversary.Adversary{Receiver: inj, Power: gpbft.NewStoragePower(advPower), ID: id}
@@ -275,7 +275,7 @@ func runC19a(e *env, tier string) {
 	if err != nil {
 		kernel.Infra("NewSimulation: %v", err)
 	}
-	runErr := s.Run(1, 12)
+	runErr := s.Run(1, 6)
 	r.Sample["config"] = fmt.Sprintf("honest=%d groups=%d advPower=%d variant=%d", n, groups, advPower, inj.variant)
 	r.Sample["outcome"] = fmt.Sprintf("%s -> Run error: %v", inj.what, runErr)
 	r.Tracef("%s | %s", r.Sample["config"], r.Sample["outcome"])
